@@ -21,9 +21,9 @@ NUMS = {"target_temperature": ("temp", float), "target_humidity": ("hum", int)}
 PROP_SETTINGS = ["horizontal_swing_angle", "vertical_swing_angle", "rate_select", "breeze_away", "breeze_mild", "breezeless", "ieco"]
 
 
-def run_cli(ctx, settings, dev_state=None, display=True, extra_args=()):
+def run_cli(ctx, settings, dev_state=None, display=True, extra_args=(), caps_frame=None):
     import msmart.cli as cli
-    model = specac.SpecAC(ctx, state=dev_state, display=display)
+    model = specac.SpecAC(ctx, state=dev_state, display=display, caps_frame=caps_frame)
     dev = simdev.SimDevice(2, device_id=DEV_ID, responder=model)
     policy = vloop.install_policy(lambda loop, net: net.add_tcp(IP, 6444, dev))
     argv, sys.argv = sys.argv, ["msmart-ng", "control", IP, "--id", str(DEV_ID)] + list(extra_args) + list(settings)
@@ -80,7 +80,7 @@ def expect_state(base, changes):
     return s
 
 
-def check_valid(ctx, rng, stream, pairs, changes, dev_state, display=True, want_display=None):
+def check_valid(ctx, rng, stream, pairs, changes, dev_state, display=True, want_display=None, extra_args=(), caps_frame=None):
     """pairs: list of 'name=value'; changes: expected device state changes"""
     # every requested value is a REAL change: the unit starts from a state that differs in each requested field
     # (otherwise a setting that is silently dropped would go unnoticed whenever the unit happened to be there already)
@@ -90,8 +90,10 @@ def check_valid(ctx, rng, stream, pairs, changes, dev_state, display=True, want_
     for k, v in changes.items():
         if dev_state.get(k) == v:
             dev_state[k] = next(x for x in alt.get(k, [0, 1]) if x != v)
-    code, model, dev, contacted = run_cli(ctx, pairs, dev_state=dev_state, display=display)
+    code, model, dev, contacted = run_cli(ctx, pairs, dev_state=dev_state, display=display, extra_args=extra_args, caps_frame=caps_frame)
     inp = {"settings": pairs, "device_state_before": dev_state}
+    if extra_args:
+        inp["options"] = list(extra_args)
     before = specac.SpecAC(ctx, state=dev_state).state
     want = expect_state(before, changes)
     got = model.state
@@ -260,6 +262,20 @@ def run(ctx):
         check_invalid(ctx, rng, "invalid", [s])
         check_invalid(ctx, rng, "invalid_after_valid", ["eco=True", s])
         check_invalid(ctx, rng, "invalid_before_valid", [s, "fan_speed=60"])
+    # ... also with --capabilities (the capability query of a unit WITHOUT custom fan speeds, with a limited mode set, ...):
+    # what the unit can do must not rewrite what it reported for the settings the user did not name
+    import respgen
+    caps_variants = [
+        respgen.make_frame(respgen.caps_body([(0x0210, [5]), (0x0214, [0]), (0x0215, [1])]) + b"\x00", frame_type=3),
+        respgen.make_frame(respgen.caps_body([(0x0210, [1]), (0x0214, [1]), (0x0212, [1]), (0x0216, [1])]) + b"\x00", frame_type=3),
+        respgen.make_frame(respgen.caps_body([(0x0210, [7]), (0x021F, [3]), (0x0225, [32, 60, 34, 60, 34, 60, 1])]) + b"\x00", frame_type=3),
+    ]
+    for cf in caps_variants:
+        for _ in range(4 if not thorough else 40):
+            st = rand_dev_state(rng)
+            st["fan"] = rng.choice([50, 33, 77, 1, 40, 102])
+            check_valid(ctx, rng, "preserved_with_capabilities", ["beep=0"], {}, st, extra_args=("--capabilities",), caps_frame=cf)
+            check_valid(ctx, rng, "preserved_with_capabilities", ["eco=1"], {"eco": 1}, st, extra_args=("--capabilities",), caps_frame=cf)
     # unspecified settings are preserved (every field individually)
     for _ in range(20 if not thorough else 300):
         st = rand_dev_state(rng)
